@@ -423,11 +423,25 @@ def h_autoreg(eng, case):
     eng.reach('end')
 
 
+def _open_integers(schema):
+    """the value domain of the numeric control parameters comes from the management protocol, not from the code under
+    test: FaceId, Origin, Cost, Flags, ExpirationPeriod, Mask, Capacity, Count, Mtu are non-negative integers of any
+    value, whatever type the field declaration happens to convert them to"""
+    out = []
+    for name, t, kind, arg in schema:
+        if kind == 'uint' and name in CP_UINTS and arg.get('enum') is not None:
+            arg = dict(arg, enum=None)
+        elif kind == 'model':
+            arg = (_open_integers(arg[0]),) + tuple(arg[1:])
+        out.append((name, t, kind, arg))
+    return out
+
+
 def h_response(eng, case):
     """parse_response(encode(r)) returns the fields that were encoded"""
     from ndn.app_support import nfd_mgmt as m
     cls = m.ControlResponse
-    schema = mg.schema_of(cls)
+    schema = _open_integers(mg.schema_of(cls))
     plan = mg.plans(schema)[case['plan']]
     vals = mg.make_values(eng, schema, plan)
     obj = mg.build(cls, schema, vals)
